@@ -305,7 +305,8 @@ class Interp:
              'Shr': lambda: x >> y if signed else z3.LShR(x, y), 'Shl': lambda: x << y}
         return T[op]()
     # -- driver
-    def run(self, entry, args, max_steps=400, max_paths=5000):
+    def run(self, entry, args, max_steps=400, max_paths=5000, budget_s=None):
+        t_end = time.time() + budget_s if budget_s else None
         p = Path(); fr = Frame(self.ctx.mir.body(entry), Cell(), None)
         for a, v in zip(fr.body.args, args): fr.env[a] = Cell(v)
         p.frames.append(fr)
@@ -313,7 +314,7 @@ class Interp:
         while work:
             p, steps = work.pop()
             self.iters = getattr(self, 'iters', 0) + 1
-            if self.iters % 2000 == 0: print('  ..iters', self.iters, 'work', len(work), 'results', len(self.results), 'q', self.ctx.nq, file=sys.stderr)
+            if t_end and self.iters % 50 == 0 and time.time() > t_end: raise Unsupported('time budget of %ss exhausted' % budget_s)
             if steps > max_steps: self.results.append(('boundhit', p)); continue
             if len(self.results) > max_paths: raise Unsupported('too many paths')
             try:
@@ -411,6 +412,9 @@ class Interp:
                 p.frames.append(nf)
                 return [p]
         # uninterpreted
+        allow = getattr(self, 'allow_uninterpreted', None)
+        if allow is not None and not any(re.search(pat, callee) for pat in allow):
+            raise Unsupported('call of %s is neither inlined nor modelled nor on the uninterpreted allow-list' % callee)
         rty = fr.body.types.get(dst, '?') if dst and re.match(r'_\d+$', dst) else '?'
         dcell.v = self.ctx.fresh(rty, callee.split('::')[-1])
         p.events.append((callee, argv, dcell.v))
